@@ -4,6 +4,9 @@ import json, os, sys
 HERE = os.path.dirname(os.path.abspath(__file__))
 sys.path.insert(0, HERE)
 import manifest_data as md
+import glob
+for _f in sorted(glob.glob(os.path.join(HERE, 'manifest_entries', 'C*.json'))):
+    md.CLAIMED[os.path.basename(_f)[:-5]] = json.load(open(_f))
 props = [json.loads(l) for l in open(os.path.join(HERE, '..', 'properties.jsonl'))]
 ids = [p['id'] for p in props]
 checks = []
